@@ -113,6 +113,50 @@ partial def loop (decl : Json) (version : String) (stdin : IO.FS.Stream) (worlds
     let cfg := datOptions ((txt.splitOn "\n").map datTokens)
     IO.println s!"ok {cfg.dim} {cfg.compositions} {cfg.grainCompositions} {cfg.nGrains} {cfg.convertSpherical}"
     loop decl version stdin worlds
+  | "kconv" :: args =>
+    match args.mapM unhex with
+    | some [x, y, z] =>
+      let sc := cartesianToSpherical (⟨x, y, z⟩ : P3 Float)
+      let b := sphericalToCartesian sc
+      IO.println (fmtOut [sc.x, sc.y, sc.z, b.x, b.y, b.z]); loop decl version stdin worlds
+    | _ => IO.println "err bad-args"; loop decl version stdin worlds
+  | "kgc" :: args =>
+    match args.mapM unhex with
+    | some [r, lo1, la1, lo2, la2] =>
+      IO.println (fmtOut [distanceSameDepth true (⟨r, lo1, la1⟩ : P3 Float) ⟨r, lo2, la2⟩]); loop decl version stdin worlds
+    | _ => IO.println "err bad-args"; loop decl version stdin worlds
+  | "kpoly" :: sph :: n :: args =>
+    match n.toNat?, args.mapM unhex with
+    | some n, some vs =>
+      if vs.length != 2 * n + 2 then do IO.println "err bad-args"; loop decl version stdin worlds else
+      let pts : List (P2 Float) := (List.range n).map (fun i => ⟨vs[2 * i]!, vs[2 * i + 1]!⟩)
+      let p : P2 Float := ⟨vs[2 * n]!, vs[2 * n + 1]!⟩
+      IO.println (fmtOut [if polygonContains (sph == "1") pts p then 1.0 else 0.0]); loop decl version stdin worlds
+    | _, _ => IO.println "err bad-args"; loop decl version stdin worlds
+  | "kkd" :: n :: args =>
+    match n.toNat?, args.mapM unhex with
+    | some n, some vs =>
+      if vs.length != 2 * n + 2 then do IO.println "err bad-args"; loop decl version stdin worlds else
+      let nodes : List (KdNode Float) := (List.range n).map (fun i => ⟨i, vs[2 * i]!, vs[2 * i + 1]!⟩)
+      let p : P2 Float := ⟨vs[2 * n]!, vs[2 * n + 1]!⟩
+      let tree := (buildMedian (n + 1) nodes false).toArray
+      match kdFindClosestPoints tree p with
+      | .ok st => IO.println (fmtOut [st.minDistance, st.minDistance, Float.ofNat st.vector.length]); loop decl version stdin worlds
+      | .error e => IO.println s!"err {e}"; loop decl version stdin worlds
+    | _, _ => IO.println "err bad-args"; loop decl version stdin worlds
+  | "kbez" :: sph :: n :: args =>
+    match n.toNat?, args.mapM unhex with
+    | some n, some vs =>
+      if vs.length != 2 * n + 2 then do IO.println "err bad-args"; loop decl version stdin worlds else
+      let pts : List (P2 Float) := (List.range n).map (fun i => ⟨vs[2 * i]!, vs[2 * i + 1]!⟩)
+      let p : P2 Float := ⟨vs[2 * n]!, vs[2 * n + 1]!⟩
+      match (do let bz ← Bezier.build pts; bz.closestPoint (sph == "1") p) with
+      | .ok (some c) => IO.println (fmtOut [c.distance, c.fraction, Float.ofNat c.index, c.point.x, c.point.y, c.normal.x, c.normal.y]); loop decl version stdin worlds
+      | .ok none =>
+        let nan : Float := 0.0 / 0.0
+        IO.println (fmtOut [1.0 / 0.0, nan, 0.0, nan, nan, nan, nan]); loop decl version stdin worlds
+      | .error e => IO.println s!"err {e}"; loop decl version stdin worlds
+    | _, _ => IO.println "err bad-args"; loop decl version stdin worlds
   | ["parfor", a, b, c] =>
     match a.toNat?, b.toNat?, c.toNat? with
     | some start, some stop, some pool =>
